@@ -100,6 +100,9 @@ func hDigestByte(st int, k int) byte                    { return 0 }
 // sends(): ghost counter of datagrams handed to transport.Send so far.
 func sends() int { return 0 }
 
+// randFills(s): how many crypto/rand.Read calls so far wrote a draw starting at s[0].
+func randFills(s []byte) int { return 0 }
+
 // lastSendFailed(): the most recent transport.Send returned an error.
 func lastSendFailed() bool { return false }
 
